@@ -142,10 +142,18 @@ impl<'tcx> Extract<'tcx> {
                 | hir::ItemKind::Use(..)
                 | hir::ItemKind::ExternCrate(..) => {}
                 _ => {
+                    let kind = tcx.def_kind(def_id);
+                    let ty_str = if matches!(kind, DefKind::Const { .. }) {
+                        tcx.type_of(def_id).instantiate_identity().skip_norm_wip().to_string()
+                    } else {
+                        String::new()
+                    };
                     other_items.push(J::obj(vec![
                         ("path", s(path)),
-                        ("kind", s(format!("{:?}", tcx.def_kind(def_id)))),
+                        ("kind", s(format!("{:?}", kind))),
+                        ("ty_str", s(ty_str)),
                         ("where", self.span_json(item.span)),
+                        ("mac", self.mac_json(item.span)),
                     ]));
                 }
             }
@@ -931,15 +939,18 @@ impl<'a, 'tcx> BodyCx<'a, 'tcx> {
         }
         // the `Some(pat)` arm
         for a in *inner_arms {
-            if let hir::PatKind::TupleStruct(_, pats, _) = &a.pat.kind {
-                if pats.len() == 1 {
-                    return Some(vec![
-                        ("k", s("for")),
-                        ("pat", self.pat(&pats[0])),
-                        ("iter", self.expr(iter_expr)),
-                        ("body", self.expr(a.body)),
-                    ]);
-                }
+            let item_pat: Option<&hir::Pat<'tcx>> = match &a.pat.kind {
+                hir::PatKind::TupleStruct(_, pats, _) if pats.len() == 1 => Some(&pats[0]),
+                hir::PatKind::Struct(_, fields, _) if fields.len() == 1 => Some(fields[0].pat),
+                _ => None,
+            };
+            if let Some(ip) = item_pat {
+                return Some(vec![
+                    ("k", s("for")),
+                    ("pat", self.pat(ip)),
+                    ("iter", self.expr(iter_expr)),
+                    ("body", self.expr(a.body)),
+                ]);
             }
         }
         None
